@@ -22,17 +22,22 @@ func init() {
 // only touch their streams through `?` methods, i.e. whether C05's statement
 // applies to them unconditionally.
 func SplitIndependent(id string) bool {
-	switch id {
-	case "K-live/v0",
-		"K-read-seq/v0", "K-read-seq/v1", "K-read-seq/v2",
-		"K-read-loop/v0", "K-read-loop/v1", "K-read-loop/v2", "K-read-loop/v3", "K-read-loop/v4",
-		"K-write-loop/v0", "K-write-loop/v1",
-		"K-nested-coro/v0", "K-nested-coro/v1", "K-nested-coro/v2", "K-nested-coro/v3", "K-nested-coro/v4", "K-nested-coro/v5",
-		"K-peek-skip/v0":
-		return true
+	for _, x := range SplitIndependentIDs {
+		if x == id {
+			return true
+		}
 	}
 	return false
 }
+
+// SplitIndependentIDs lists the family/variant pairs for which C05's statement
+// applies unconditionally.
+var SplitIndependentIDs = []string{"K-live/v0",
+	"K-read-seq/v0", "K-read-seq/v1", "K-read-seq/v2",
+	"K-read-loop/v0", "K-read-loop/v1", "K-read-loop/v2", "K-read-loop/v3", "K-read-loop/v4",
+	"K-write-loop/v0", "K-write-loop/v1",
+	"K-nested-coro/v0", "K-nested-coro/v1", "K-nested-coro/v2", "K-nested-coro/v3", "K-nested-coro/v4", "K-nested-coro/v5",
+	"K-peek-skip/v0"}
 
 type liveGen struct {
 	g       *genctx
